@@ -136,8 +136,7 @@ def check(run):
                       detail="model coq/Length.v and zvt_builder::length disagree; correspondence `prim` no longer checks")
     oracle(run, bins["prim"])
     # if the oracle found concrete failures, they supersede the no-failing-input reports
-    if any(not v.get("no_failing_input_found") for v in run.violations):
-        run.violations = [v for v in run.violations if not v.get("no_failing_input_found")]
+    vlib.prefer_concrete(run)
     return vlib.finish(run, trusted_base=TB,
                        assumptions=["64-bit usize", "model of length.rs is hand-written; tie = exhaustive differential run"])
 
